@@ -80,7 +80,7 @@ def norm_state(js):
 def render_cell(heap, cell, top=False):
     t, v = cell
     if t == "i":
-        return "NULL" if (top and v == 0) else str(v)
+        return "" if (top and v == 0) else str(v)      # string(NULL) is the empty string
     k, keys, items = heap[v - 1]
     if k == "list":
         return "[" + ", ".join(render_cell(heap, x) for x in items) + "]"
@@ -319,7 +319,7 @@ def _identity(it):
             for i in range(4)]
 
 
-def run_case(case, limit=3.0):
+def run_case(case, limit=2.0):
     """case: {"build": src, "init_want": [...], "steps": [{"src", "want", "op", "part"}]}
     -> {"viol": (key, what) | None, "drift": [(kind, sample)], "evals": n}"""
     it = _IT
